@@ -143,6 +143,9 @@ def monitor(case, impl):
     Tsh = np.asarray(impl["Tshelf"])
     tn = np.asarray(impl["tNuc"])
     t = np.asarray(impl["t"])
+    sub = impl.get("stored_idx")
+    if sub is not None:
+        tn = tn[sub]        # row r of X is vial sorted(store)[r]
     viol = []
 
     def v(clause, k, i, detail):
@@ -198,6 +201,9 @@ def monitor(case, impl):
     if (XT < lowb[:, None] - eps).any():
         k, i = np.argwhere(XT < lowb[:, None] - eps)[0]
         v("lower_bound", k, i, f"T={XT[k, i]!r} < coldest shelf temperature so far {lowb[k]!r}")
+    if sub is not None:
+        return {"stable": ok, "margins": marg, "violations": viol, "vial_steps": int(N * len(sub)),
+                "ice": int(ice.sum()), "warmed_ice": 0, "side_bad": 0, "side_first": None}
     # side condition of run_admissible_partial
     W = np.zeros((n, n))
     for i, r in enumerate(impl["nbrs"]):
@@ -224,6 +230,8 @@ def predicates(case, impl):
         out.append(Failure(clause="total", key=f"total|Snowflake.run|{impl['raise']}",
                            detail=f"valid configuration raises {impl['raise']}: {impl.get('msg')}"))
         return out
+    for clause, detail in fu.stateless_failures(case, impl):
+        out.append(Failure(clause=clause, key=f"{clause}|Snowflake.__init__|", detail=detail))
     mon = impl["monitor"]
     if not mon["stable"]:
         return out  # outside the stated operating range: nothing is claimed
@@ -314,11 +322,13 @@ def _case(rng, tier):
 def cases(rng, tier):
     for _ in range(4 if tier == "quick" else 40):   # controlled nucleation after spontaneous nucleation
         yield c01._late_cn(rng, tier)
-    n, nh, nt = (46, 8, 6) if tier == "quick" else (1300, 120, 50)
+    for _ in range(4 if tier == "quick" else 40):   # recorded subsets given as unsorted int lists
+        yield c01._subset(rng, tier)
+    n, nh, nt = (42, 8, 6) if tier == "quick" else (1300, 120, 50)
     for _ in range(n):
         yield _case(rng, tier)
     for j in range(nh):   # object histories (second run of a re-configured object)
-        yield c01._history(rng, tier, force="rate_fine" if j < 3 else None)
+        yield c01._history(rng, tier, force="rate_fine" if j < 3 else "shape" if j < 5 else None)
     for _ in range(nt):   # nucleation at a tiny supercooling
         yield c01._tiny(rng, tier)
 
